@@ -308,6 +308,7 @@ func (st *Store) handleEdgePoints(msg *nats.Msg) {
 		// TODO track error stats
 		log.Printf("Error writing edge points (%v:%v) to Db: %v", nodeID, parentID, err)
 		st.reply(msg.Reply, err)
+		return
 	}
 
 	// process point in upstream nodes. We need to do this before writing
